@@ -369,9 +369,11 @@ open ZygoVerif.VM in
 /-- Proved part. The typed pops of the VM (`PopExpr`, `PopExpressions`, the argument check
 of `CallFunction`, `wrangleOptargs`, scope pops, stack-mark pops) and the binding of a symbol
 neither panic on stacks without nil cells nor create a nil cell, and `restoreControlState`
-does not either AS LONG AS the recorded sizes do not exceed the present ones (`Fits`); the one
-remaining panic is `LexicalBindSymbol` on an EMPTY scope stack, and then the scope stack is
-empty in the final state.
+does not either AS LONG AS the recorded sizes do not exceed the present ones (`Fits`); one
+step of `Execute` for every instruction kind that does not call into the interpreter (24 of
+the 26 kinds of the model: all but `CallInstr{array}` and `CallExprInstr`) is safe in the same
+sense; the one remaining panic is `LexicalBindSymbol` on an EMPTY scope stack, and then the
+scope stack is empty in the final state.
 Missing for `C01NoPanic`: (1) `Fits` at every `restoreControlState` and a non-empty scope
 stack at every bind — the stack balance of generated code, C04's theorem, not available as a
 hypothesis-free fact about `VM.run`; without it `TruncateToSize` PADS the stack with nil
@@ -388,11 +390,14 @@ theorem c01_no_panic_partial :
     (∀ f n s, VMSafe.Good s → VMSafe.SafeAt s (callFunction f n)) ∧
     (∀ n s, VMSafe.Good s → VMSafe.SafeAt s (popScopes n)) ∧
     (∀ l k fuel s, VMSafe.Good s → VMSafe.SafeAt s (popToMark l k fuel)) ∧
-    (∀ x v s, VMSafe.Good s → VMSafe.SafeAt s (bindTop x v)) :=
+    (∀ x v s, VMSafe.Good s → VMSafe.SafeAt s (bindTop x v)) ∧
+    (∀ fuel i s, VMSafe.isCall i = false → VMSafe.Good s → VMSafe.SafeAt s (exec (fuel + 1) i)) :=
   ⟨VMSafe.popData_safe, VMSafe.popN_safe, VMSafe.restore_safe, VMSafe.callFunction_safe,
-   VMSafe.popScopes_safe, VMSafe.popToMark_safe, VMSafe.bindTop_safe⟩
+   VMSafe.popScopes_safe, VMSafe.popToMark_safe, VMSafe.bindTop_safe,
+   fun fuel i s hi hg => VMSafe.exec_step_safe fuel i hi s hg⟩
 
 example : VMSafe.Good VM.initSt := VMSafe.good_init
+example : VMSafe.isCall (.branch true 2) = false := rfl
 example : VMSafe.Fits ⟨0, 0, 0, 0, 1, 0⟩ VM.initSt := by
   refine ⟨Nat.zero_le _, Nat.zero_le _, ?_⟩
   simp [VM.initSt]
